@@ -8,7 +8,7 @@ from typing import Any
 from .. import astx
 from ..core import REPO
 
-N_CASES = {"quick": 500, "thorough": 500000}
+N_CASES = {"quick": 2000, "thorough": 500000}
 TIME_BUDGET = {"quick": 60, "thorough": 270}
 META = {
     "rule": "a class model with inheritance (methods found on a base class), Generic[T] and Generic[K, V] classes used parameterised as "
